@@ -17,8 +17,16 @@ func WC(fourcc string, data []byte) WChunk { return WChunk{FourCC: fourcc, Data:
 // VP8 builds a lossy key-frame chunk payload: frame tag, start code, 14-bit
 // width/height with 2-bit scale each, then body bytes (first partition data).
 func VP8(w, h uint16, wscale, hscale byte, body []byte) WChunk {
+	return VP8Tag(w, h, wscale, hscale, body, 0, true)
+}
+
+// VP8Tag is VP8 with the frame tag's bitstream version (0..3) and show_frame bit chosen.
+func VP8Tag(w, h uint16, wscale, hscale byte, body []byte, version byte, show bool) WChunk {
 	partLen := uint32(len(body))
-	tag := uint32(0) | 0<<1 | 1<<4 | partLen<<5 // key frame, version 0, show_frame
+	tag := uint32(0) | uint32(version&7)<<1 | partLen<<5 // bit 0 clear: key frame
+	if show {
+		tag |= 1 << 4
+	}
 	d := []byte{byte(tag), byte(tag >> 8), byte(tag >> 16), 0x9d, 0x01, 0x2a,
 		byte(w), byte(w>>8)&0x3f | wscale<<6, byte(h), byte(h>>8)&0x3f | hscale<<6}
 	d = append(d, body...)
